@@ -437,10 +437,6 @@ func (g *Gen) Variant(depth int) *ua.Variant {
 		id = 1 + g.R.Intn(21)
 	}
 	sh := g.Shape(false)
-	if id == int(ua.TypeIDByteString) && sh.Kind != "scalar" {
-		// arrays of ByteString are the finding C01.variant-bytestring-array; generated by the dedicated stream
-		sh = VariantShape{Kind: "scalar"}
-	}
 	x := g.VariantOf(id, sh, depth+1)
 	v, err := ua.NewVariant(x)
 	if err != nil {
